@@ -79,6 +79,14 @@ def name_axioms_for(term):
         ax.append(nparts(term) == n)
         for i in range(n):
             ax.append(part(term, i) == term.arg(i))
+    else:
+        # extensionality: a name with k parts IS the join of its parts (k <= 4)
+        for k in range(1, 5):
+            j = join_fn(k)(*[part(term, i) for i in range(k)])
+            ax.append(z3.Implies(nparts(term) == k, term == j))
+            ax.append(nparts(j) == k)
+            for i in range(k):
+                ax.append(part(j, i) == part(term, i))
     return ax
 
 
